@@ -4,7 +4,7 @@
    by the correspondence check of ./check C11 (exhaustive sub-complexes + random soups + malformed stream). *)
 From Coq Require Import QArith List Arith Bool.
 From BV Require Import Grid.Topology Grid.PairFacts Grid.AdjacencyFacts Grid.EdgeFacts Grid.TablesFacts
-  Grid.Geometry Grid.GeometryFacts Grid.Examples.
+  Grid.Geometry Grid.GeometryFacts Grid.Refine Grid.RefineFacts Grid.Examples.
 Import ListNotations.
 Open Scope nat_scope.
 
@@ -163,6 +163,90 @@ Theorem C11_geometry_partial : forall x0 x1 x2 : vec,
 Proof. exact geometry_all. Qed.
 Print Assumptions C11_geometry_partial.
 Close Scope Q_scope.
+
+(* ---- refinement, segment extraction, union: for EVERY grid with in-range vertex numbers ---------------------- *)
+(* Grid.refine: sizes; old vertices kept; children inherit the domain index; the new vertex on a local edge is
+   nv + (global edge number) -- hence shared between elements exactly when the edge is (conformity, with
+   C11_edge_numbering_injective) -- and is the midpoint; every child has the parent's orientation and a quarter of
+   its area vector (so areas add up) *)
+Theorem C11_refine : forall (vs : list vec) (els : list elem) (dom : list nat),
+  in_range els (length vs) = true ->
+  let g := (vs, els, dom) in let nv := length vs in let X := fun e k => vat vs (vget (el els e) k) in
+  length (g_vs (refine g)) = nv + length (edges els) /\ length (g_els (refine g)) = 4 * length els /\
+  length (g_dom (refine g)) = 4 * length dom /\
+  (forall i, i < nv -> vat (g_vs (refine g)) i = vat vs i) /\
+  (forall e k, e < length dom -> k < 4 -> nth (4 * e + k) (g_dom (refine g)) 0 = nth e dom 0) /\
+  (forall e l, e < length els -> l < 3 ->
+     veq (vat (g_vs (refine g)) (nv + eedge els e l))
+         (midpoint (X e (fst (edge_local l))) (X e (snd (edge_local l))))) /\
+  (forall e k, e < length els -> k < 4 ->
+     let c := nth (4 * e + k) (g_els (refine g)) (0, 0, 0) in
+     let Y := fun i => vat (g_vs (refine g)) (vget c i) in
+     vget c 0 < length (g_vs (refine g)) /\ vget c 1 < length (g_vs (refine g)) /\
+     vget c 2 < length (g_vs (refine g)) /\
+     veq (normal_dir (Y 0) (Y 1) (Y 2)) (vscale (1 # 4)%Q (normal_dir (X e 0) (X e 1) (X e 2)))).
+Proof. exact refine_correct. Qed.
+Print Assumptions C11_refine.
+
+(* geometry of the six barycentric children of any triangle: each has the parent's orientation and a sixth of its
+   area vector *)
+Theorem C11_barycentric_children : forall x0 x1 x2 : vec,
+  let m01 := midpoint x0 x1 in let m20 := midpoint x2 x0 in let m12 := midpoint x1 x2 in
+  let c := vscale (1 # 3)%Q (vadd (vadd x0 x1) x2) in
+  let s := vscale (1 # 6)%Q (normal_dir x0 x1 x2) in
+  veq (normal_dir x0 m01 c) s /\ veq (normal_dir x1 c m01) s /\ veq (normal_dir x1 m12 c) s /\
+  veq (normal_dir x2 c m12) s /\ veq (normal_dir x2 m20 c) s /\ veq (normal_dir x0 c m20) s.
+Proof. exact bary_children_normals. Qed.
+Print Assumptions C11_barycentric_children.
+
+(* grid_from_segments: exactly the elements with a listed domain index are kept, in order, with their domain
+   indices; their vertices are renumbered injectively, keep their coordinates, and no unused vertex remains *)
+Theorem C11_segments : forall (vs : list vec) (els : list elem) (dom segs : list nat),
+  in_range els (length vs) = true ->
+  let g := (vs, els, dom) in let s := segments g segs in let sel := selected g segs in
+  g_dom s = map snd sel /\ length (g_els s) = length sel /\
+  (forall p, In p sel <-> In p (combine els dom) /\ existsb (Nat.eqb (snd p)) segs = true) /\
+  (forall k i, k < length sel -> i < 3 ->
+     let old := vget (fst (nth k sel ((0, 0, 0), 0))) i in
+     let new := vget (nth k (g_els s) (0, 0, 0)) i in
+     new < length (g_vs s) /\ vat (g_vs s) new = vat vs old) /\
+  (forall k i k' i', k < length sel -> i < 3 -> k' < length sel -> i' < 3 ->
+     (vget (nth k (g_els s) (0, 0, 0)) i = vget (nth k' (g_els s) (0, 0, 0)) i' <->
+      vget (fst (nth k sel ((0, 0, 0), 0))) i = vget (fst (nth k' sel ((0, 0, 0), 0))) i')) /\
+  (forall j, j < length (g_vs s) ->
+     exists k i, k < length sel /\ i < 3 /\ vget (nth k (g_els s) (0, 0, 0)) i = j).
+Proof. exact segments_correct. Qed.
+Print Assumptions C11_segments.
+
+(* union: element k of input grid j sits behind the elements of the earlier grids, vertex numbers shifted by
+   the number of earlier vertices, local vertices 1 and 2 exchanged iff the grid's normals are swapped;
+   that exchange reverses the normal direction *)
+Theorem C11_union_elements : forall (gs : list tgrid) sw off j k,
+  j < length gs -> k < length (t_els (nth j gs dG)) ->
+  nth (eoff gs j + k) (union_els off gs sw) (0, 0, 0) =
+  shift_elem (off + voff gs j) (maybe_swap (nth j sw false) (nth k (t_els (nth j gs dG)) (0, 0, 0))).
+Proof. exact union_els_nth. Qed.
+Print Assumptions C11_union_elements.
+
+Theorem C11_union_swap_reverses_orientation : forall (vs : list vec) (e : elem),
+  let X := fun i => vat vs (vget e i) in let Y := fun i => vat vs (vget (swap_elem e) i) in
+  veq (normal_dir (Y 0) (Y 1) (Y 2)) (vscale (-1 # 1)%Q (normal_dir (X 0) (X 1) (X 2))).
+Proof. exact swap_elem_normal. Qed.
+Print Assumptions C11_union_swap_reverses_orientation.
+
+(* union, domain indices: inside every input grid the partition into domains is kept; different input grids
+   receive disjoint (increasing) ranges; explicitly given indices are attached per grid.
+   Not proved (correspondence + search only): the normalised indices are exactly 0..N-1. *)
+Theorem C11_union_domain_indices_partial :
+  (forall mode pm first d i j, i < length d -> j < length d ->
+     (nth i (union_dom_of mode pm first d) 0 = nth j (union_dom_of mode pm first d) 0 <-> nth i d 0 = nth j d 0)) /\
+  (forall mode (gs : list tgrid) pm first j j' x y, (forall g, In g gs -> snd g <> []) -> j < j' ->
+     In x (nth j (union_doms mode pm first gs) []) -> In y (nth j' (union_doms mode pm first gs) []) -> x < y) /\
+  (forall (gs : list tgrid) sw mode ds, length ds = length gs ->
+     snd (union gs sw mode (Some ds)) =
+     concat (map (fun p => repeat (snd p) (length (t_els (fst p)))) (combine gs ds))).
+Proof. exact (conj union_dom_of_partition (conj union_doms_separated union_given_dom)). Qed.
+Print Assumptions C11_union_domain_indices_partial.
 
 (* ---- the hypotheses are satisfiable ------------------------------------------------------------------------- *)
 Theorem C11_examples :
